@@ -88,6 +88,25 @@ pub const SM2_G_Y: U256 = [
     0xbc3736a2f4f6779c,
 ];
 
+/// Verification hook (only with `--cfg gm_rs_verif`): lets a test harness replace the 32 candidate bytes
+/// drawn from the RNG (fixed-nonce vectors, out-of-range candidates).
+#[cfg(gm_rs_verif)]
+pub mod verif_hooks {
+    use std::cell::RefCell;
+    use std::collections::VecDeque;
+    thread_local! {
+        static QUEUE: RefCell<VecDeque<[u8; 32]>> = RefCell::new(VecDeque::new());
+    }
+    pub fn push_candidate(b: [u8; 32]) {
+        QUEUE.with(|q| q.borrow_mut().push_back(b));
+    }
+    pub(crate) fn override_candidate(buf: &mut [u8; 32]) {
+        if let Some(b) = QUEUE.with(|q| q.borrow_mut().pop_front()) {
+            *buf = b;
+        }
+    }
+}
+
 #[inline(always)]
 pub fn random_u256() -> U256 {
     let mut rng = rand::thread_rng();
@@ -95,6 +114,8 @@ pub fn random_u256() -> U256 {
     let mut ret;
     loop {
         rng.fill_bytes(&mut buf[..]);
+        #[cfg(gm_rs_verif)]
+        verif_hooks::override_candidate(&mut buf);
         ret = u256_from_be_bytes(&buf);
         if u256_cmp(&ret, &crate::fields::fn64::SM2_N) < 0 && ret != [0, 0, 0, 0] {
             break;
